@@ -71,7 +71,8 @@ def make_source(name, spec, env):
     if kind == "ndarray":
         return {"obj": a, "user": a, "orig": a.copy(), "spec": spec}
     lock = env.lock(spec["lock"]) if isinstance(spec.get("lock"), str) else None
-    s = fakes.SimSource(
+    cls = fakes.SimSource if spec.get("tokenizable", True) else fakes.OpaqueSimSource
+    s = cls(
         a,
         storage_grid=spec.get("grid"),
         name=name,
